@@ -775,18 +775,15 @@ def run_harness(binp, cases, tag, extra=None, shards=None):
 
 def known_class(case, r, what, detail=None):
     """decidable classes of inputs on which koto is known to violate C05 (known_findings.json, status open).
-    C05a (unchecked backward jump offset), C05b (capture order), C05c (Frame::new overflow) and C05e
-    (chunks(0) in compile_make_sequence) are FIXED in /repo: they suppress nothing any more."""
+    C05a (unchecked backward jump offset), C05b (capture order), C05c (Frame::new overflow), C05e
+    (chunks(0) in compile_make_sequence) and C05f (discarded function literal) are FIXED in /repo: they suppress nothing any more."""
     if what == "clause5":
         if re.search(r"\b(break|continue|return)\b", case["src"]):
             return "C05d"
         return None
     if what == "wf":
-        # C05f: the verifier rejects a NewFrame that is not the first instruction of a function body, in a
-        # program with a function literal: compile_function emits the body of a function whose value is
-        # discarded (no result register) inline, without the Function instruction that skips it
-        if detail and detail.get("bad_op") == "NewFrame" and detail.get("first_rejected_ip") and "|" in case["src"]:
-            return "C05f"
+        # C05f (a discarded function literal compiled its body inline, without the Function instruction that
+        # skips it) is FIXED in /repo (98ac504: the unused body is jumped over): it suppresses nothing any more
         return None
     return None
 
